@@ -4,9 +4,12 @@ package composite
 
 import (
 	"fmt"
+	"reflect"
 	"sort"
 	"strings"
+	"sync/atomic"
 	"testing"
+	"time"
 
 	metav1 "k8s.io/apimachinery/pkg/apis/meta/v1"
 	"k8s.io/apimachinery/pkg/labels"
@@ -418,4 +421,129 @@ func runC15(t *testing.T, id string, c c15Case) {
 		nrel += len(inner)
 	}
 	rep.Case("C15", id, true, id, map[string]interface{}{"case": c, "expectedRelated": flat(expected), "gotRelated": flat(gotM), "wakeups": fmt.Sprintf("%d/%d", woke, total)})
+}
+
+// First use of a related resource by two syncs at once (two workers right after a start; the
+// parallel per-revision calls of a rollout): the first LIST of the related resource is held back at
+// the server while a second parent is synced. Whenever a sync's hook is called, its `related` map
+// holds what the rules select - not the contents of a cache that has not been filled yet.
+func TestVerif_C15_ConcurrentFirstUse(t *testing.T) {
+	for _, cluster := range []bool{false, true} {
+		for _, n := range []int{1, 3} {
+			cluster, n := cluster, n
+			id := fmt.Sprintf("c15-concurrent-first-use-cl%v-o%d", cluster, n)
+			if !sim.WantCase(id) {
+				continue
+			}
+			t.Run(id, func(t *testing.T) {
+				t.Parallel()
+				runC15ConcurrentFirstUse(t, id, cluster, n)
+			})
+		}
+	}
+}
+
+func runC15ConcurrentFirstUse(t *testing.T, id string, cluster bool, nobj int) {
+	rep := sim.R()
+	rep.Begin("C15", id)
+	uid := uniqueID("cf")
+	sc := &scenario{ID: uid, ClusterParent: cluster, GenerateSelector: true, Kinds: []kindCfg{{Kind: "ConfigMap", Method: "InPlace"}}}
+	r := prepareScenario(sc)
+	defer r.close()
+	w := r.w
+	w.caseID = id
+	w.noMonitors = true // two syncs overlap
+	w.cfg.CustomizeHook = true
+	w.cc = w.cfg.compositeController(w.hooks)
+	s := w.sim
+	pgvr := sc.parentInfo().GVR()
+	relNS := sc.ns()
+	if cluster {
+		relNS = "rns-" + uid
+	}
+	want := map[string]bool{}
+	for i := 0; i < nobj; i++ {
+		o := sim.NewObject(sim.SecretInfo, relNS, fmt.Sprintf("s%d", i))
+		sim.SetLabels(o, map[string]string{"scope": uid})
+		s.MustCreate(sim.SecretInfo.GVR(), o)
+		k := sim.Name(o)
+		if cluster {
+			k = relNS + "/" + k
+		}
+		want[k] = true
+	}
+	w.hooks.HandleJSON("customize", func(req sim.Obj) sim.Obj {
+		return sim.Obj{"relatedResources": []interface{}{sim.Obj{"apiVersion": "v1", "resource": "secrets", "labelSelector": sim.Obj{"matchLabels": sim.Obj{"scope": uid}}}}}
+	})
+	p2 := sc.parentObject(r.kids, r.rev, r.extra)
+	sim.SetNested(p2, "q-"+uid, "metadata", "name")
+	p2 = s.MustCreate(pgvr, p2)
+	if err := w.start(); err != nil {
+		inconclusive(t, "C15", id, err)
+		return
+	}
+	if !w.quiesce() {
+		inconclusive(t, "C15", id, w.watchdog)
+		return
+	}
+	for w.q.Len() > 0 {
+		k, _ := w.q.Get()
+		w.q.Forget(k)
+		w.q.Done(k)
+	}
+	release := make(chan struct{})
+	var held int32
+	s.SetGate(func(ri *sim.ReqInfo) {
+		if ri.Verb == "list" && ri.GVR == sim.SecretInfo.GVR() && atomic.CompareAndSwapInt32(&held, 0, 1) {
+			select {
+			case <-release:
+			case <-time.After(10 * time.Second):
+			}
+		}
+	})
+	keyA, keyB := sc.parentKey(), sim.Key(p2)
+	mark := w.hooks.Mark()
+	doneA, doneB := make(chan struct{}), make(chan struct{})
+	go func() { defer close(doneA); sim.Guard(func() { _ = w.pc.sync(keyA) }) }()
+	deadline := time.Now().Add(10 * time.Second)
+	for atomic.LoadInt32(&held) == 0 && time.Now().Before(deadline) {
+		time.Sleep(200 * time.Microsecond)
+	}
+	if atomic.LoadInt32(&held) == 0 {
+		close(release)
+		<-doneA
+		inconclusive(t, "C15", id, fmt.Errorf("the first LIST of the related resource was never seen"))
+		return
+	}
+	go func() { defer close(doneB); sim.Guard(func() { _ = w.pc.sync(keyB) }) }()
+	// give the second sync the chance to run ahead of the held LIST (it must not)
+	select {
+	case <-doneB:
+	case <-time.After(1500 * time.Millisecond):
+	}
+	close(release)
+	<-doneA
+	<-doneB
+	s.SetGate(nil)
+	judged := 0
+	for _, h := range w.hooks.Since(mark) {
+		if h.Path != "sync" {
+			continue
+		}
+		judged++
+		got := map[string]bool{}
+		rel, _ := h.Req["related"].(map[string]interface{})
+		for _, g := range rel {
+			gm, _ := g.(map[string]interface{})
+			for k := range gm {
+				got[k] = true
+			}
+		}
+		if !reflect.DeepEqual(got, want) {
+			p, _ := h.Req["parent"].(map[string]interface{})
+			rep.Violation("C15", id, "related-view-differs:concurrent-first-use", fmt.Sprintf("the sync hook of parent %s was sent related=%v while the rules select %v (the cache of the related resource was still being filled for another sync)", sim.Name(p), got, want), map[string]interface{}{"clusterParent": cluster})
+		}
+	}
+	rep.Counter("C15", "concurrent_first_use_hook_calls_judged", int64(judged))
+	rep.Case("C15", id, judged >= 2, id, map[string]interface{}{"clusterParent": cluster, "relatedObjects": nobj, "syncHookCalls": judged})
 }
